@@ -3,7 +3,7 @@
    fn = "set":    a, b (member lists used to build A and B), how; union, diff, compl, pluseq, minuseq, removed, a_after, b_after
                   (member lists obtained through operator[] for all 256 byte values), eq, empty
    fn = "ranges": rs (list of <<lo,hi>>), members
-   fn = "tok":    buf, ops (list of operations), outs (per operation: ret, tok, rem, parsed, atEnd), applied in sequence to
+   fn = "tok":    buf, sets (table of member lists), ops (list of operations [op, si = index into sets, limit, str]), outs (per operation: ret, tok, rem, parsed, atEnd), applied in sequence to
                   one Tokenizer (fresh = TRUE: the tokenizer is reset(buf) before every operation); tok0 is the value the returned-token variable had before every call *)
 EXTENDS CharSetTok, ConfLib
 Case == Cases[i]
@@ -23,7 +23,7 @@ RangesOk(k) == RangesOrdered(k) => IsSet(k.members, FromRanges(k.rs))
 PrevRem(k, n) == IF n = 1 \/ k.fresh THEN k.buf ELSE k.outs[n - 1].rem
 PrevParsed(k, n) == IF n = 1 \/ k.fresh THEN 0 ELSE k.outs[n - 1].parsed
 StepOk(k, n) == LET o == k.ops[n]
-                    r == Ref(PrevRem(k, n), o)
+                    r == Ref(PrevRem(k, n), o, ToSet(k.sets[o.si]))
                     out == k.outs[n] IN
   /\ out.rem = r.rem                                  \* exactly the run is consumed, the rest is unchanged
   /\ out.parsed = PrevParsed(k, n) + r.n              \* and accounted for
@@ -42,7 +42,7 @@ ISet(k) == /\ k.eq = (ToSet(k.a) = ToSet(k.b))
 \* addRange(lo, hi) with lo > hi adds just hi
 IRanges(k) == IsSet(k.members, UNION {IF k.rs[r][1] <= k.rs[r][2] THEN k.rs[r][1]..k.rs[r][2] ELSE {k.rs[r][2]} : r \in 1..Len(k.rs)})
 IStep(k, n) == LET o == k.ops[n]
-                   r == Ref(PrevRem(k, n), o)
+                   r == Ref(PrevRem(k, n), o, ToSet(k.sets[o.si]))
                    out == k.outs[n] IN
   /\ out.ret = r.ret * (IF RetFree(o) THEN 0 ELSE 1)                    \* skip("") reports FALSE today
   /\ (~r.hasTok => out.tok = k.tok0)                                    \* a failed call does not touch the token variable
